@@ -64,6 +64,12 @@ structure Inv (s : St) : Prop where
   /-- the body of doDispose: never entered before `disposed` is set, at most once -/
   body0 : s.disposed = false → cnt inBody s + s.bodyRuns = 0
   body1 : cnt inBody s + s.bodyRuns ≤ 1
+  /-- the tracer callbacks so far are well bracketed, and a transition is open exactly when a
+      goroutine is inside one -/
+  tr : openAfter s.trace = some (cnt isRunning s)
+
+theorem openAfter_append (l : List Bool) (b : Bool) : openAfter (l ++ [b]) = trStep (openAfter l) b := by
+  simp [openAfter, List.foldl_append]
 
 private theorem mem_set_cases {l : List Th} {i : Nat} {p t : Th} (h : t ∈ l.set i p) : t = p ∨ t ∈ l := by
   rcases List.mem_or_eq_of_mem_set h with h | h
@@ -82,11 +88,12 @@ theorem inv_init (n g f : Nat) : Inv (init n g f) := by
   have h1 := hz isRunning (by intro t ht; rcases hm t ht with rfl | rfl | rfl <;> rfl)
   have h2 := hz isLR (by intro t ht; rcases hm t ht with rfl | rfl | rfl <;> rfl)
   have h3 := hz inBody (by intro t ht; rcases hm t ht with rfl | rfl | rfl <;> rfl)
-  refine ⟨?_, by omega, ?_, ?_, ?_⟩
+  refine ⟨?_, by omega, ?_, ?_, ?_, ?_⟩
   · intro _; rw [h1, h2]; rfl
   · intro t ht hp; rcases hm t ht with rfl | rfl | rfl <;> simp [pastEnter] at hp
   · intro _; rw [h3]; rfl
   · rw [h3]; show 0 + 0 ≤ 1; omega
+  · rw [h1]; rfl
 
 /-- the invariant after goroutine `i` moved from `q` to `p` and the shared fields became those of `s0`:
     the five clauses in terms of the new counts. -/
@@ -97,12 +104,13 @@ theorem inv_upd (s s0 : St) (i : Nat) (p q : Th) (h : Inv s) (hq : s.ths[i]? = s
     (hpp : pastEnter p = true → s0.disposing = true)
     (hmono : s.disposing = true → s0.disposing = true)
     (hb0 : ∀ b, b + b2n (inBody q) = cnt inBody s + b2n (inBody p) → s0.disposed = false → b + s0.bodyRuns = 0)
-    (hb1 : ∀ b, b + b2n (inBody q) = cnt inBody s + b2n (inBody p) → b + s0.bodyRuns ≤ 1) :
+    (hb1 : ∀ b, b + b2n (inBody q) = cnt inBody s + b2n (inBody p) → b + s0.bodyRuns ≤ 1)
+    (htr : ∀ r, r + b2n (isRunning q) = cnt isRunning s + b2n (isRunning p) → openAfter s0.trace = some r) :
     Inv (setTh s0 i p) := by
   have r := cnt_set s s0 i p q isRunning hq h0
   have l := cnt_set s s0 i p q isLR hq h0
   have b := cnt_set s s0 i p q inBody hq h0
-  refine ⟨fun hd => hm _ _ r l hd, ho _ r, ?_, fun hd => hb0 _ b hd, hb1 _ b⟩
+  refine ⟨fun hd => hm _ _ r l hd, ho _ r, ?_, fun hd => hb0 _ b hd, hb1 _ b, htr _ r⟩
   intro t ht hpt
   simp only [setTh] at ht ⊢
   rw [h0] at ht
@@ -113,7 +121,7 @@ theorem inv_upd (s s0 : St) (i : Nat) (p q : Th) (h : Inv s) (hq : s.ths[i]? = s
 /-- a move that changes none of the counted classes and none of the flags the invariant reads. -/
 theorem inv_same (s s0 : St) (i : Nat) (p q : Th) (h : Inv s) (hq : s.ths[i]? = some q) (h0 : s0.ths = s.ths)
     (hl : s0.lock = s.lock) (hd : s0.disposing = s.disposing) (hdd : s0.disposed = s.disposed)
-    (hb : s0.bodyRuns = s.bodyRuns)
+    (hb : s0.bodyRuns = s.bodyRuns) (ht : s0.trace = s.trace)
     (eR : isRunning p = isRunning q) (eL : isLR p = isLR q) (eB : inBody p = inBody q)
     (eP : pastEnter p = true → s.disposing = true) : Inv (setTh s0 i p) := by
   apply inv_upd s s0 i p q h hq h0
@@ -126,6 +134,7 @@ theorem inv_same (s s0 : St) (i : Nat) (p q : Th) (h : Inv s) (hq : s.ths[i]? = 
   · intro hx; rw [hd]; exact hx
   · intro b hb' hx; rw [eB] at hb'; have := h.body0 (hdd ▸ hx); rw [hb]; omega
   · intro b hb'; rw [eB] at hb'; have := h.body1; rw [hb]; omega
+  · intro r hr; rw [eR] at hr; rw [ht, h.tr]; congr 1; omega
 
 /-- every step of every goroutine keeps the invariant (fixed order). -/
 theorem inv_step (s s' : St) (i : Nat) (h : Inv s) (hs : step true s i = some s') : Inv s' := by
@@ -141,15 +150,15 @@ theorem inv_step (s s' : St) (i : Nat) (h : Inv s) (hs : step true s i = some s'
       cases pc <;> simp only [stepMut] at hs
       · -- idle
         split at hs <;> cases hs
-        · exact inv_same s s i _ _ h hp rfl rfl rfl rfl rfl rfl rfl rfl (by simp [pastEnter])
-        · exact inv_same s _ i _ _ h hp rfl rfl rfl rfl rfl rfl rfl rfl (by simp [pastEnter])
+        · exact inv_same s s i _ _ h hp rfl rfl rfl rfl rfl rfl rfl rfl rfl (by simp [pastEnter])
+        · exact inv_same s _ i _ _ h hp rfl rfl rfl rfl rfl rfl rfl rfl rfl (by simp [pastEnter])
       · -- pre
         split at hs <;> cases hs
-        · exact inv_same s s i _ _ h hp rfl rfl rfl rfl rfl rfl rfl rfl (by simp [pastEnter])
-        · exact inv_same s s i _ _ h hp rfl rfl rfl rfl rfl rfl rfl rfl (by simp [pastEnter])
+        · exact inv_same s s i _ _ h hp rfl rfl rfl rfl rfl rfl rfl rfl rfl (by simp [pastEnter])
+        · exact inv_same s s i _ _ h hp rfl rfl rfl rfl rfl rfl rfl rfl rfl (by simp [pastEnter])
       · -- cas
         split at hs <;> cases hs
-        · exact inv_same s s i _ _ h hp rfl rfl rfl rfl rfl rfl rfl rfl (by simp [pastEnter])
+        · exact inv_same s s i _ _ h hp rfl rfl rfl rfl rfl rfl rfl rfl rfl (by simp [pastEnter])
         · rename_i hf
           have hff : s.lock = false := by simpa using hf
           apply inv_upd s { s with lock := true } i _ _ h hp rfl
@@ -163,6 +172,7 @@ theorem inv_step (s s' : St) (i : Nat) (h : Inv s) (hs : step true s i = some s'
           · exact id
           · intro b hb hx; simp [inBody] at hb; have := h.body0 hx; simp only at *; omega
           · intro b hb; simp [inBody] at hb; have := h.body1; simp only at *; omega
+          · intro r hr; simp [isRunning] at hr; show openAfter s.trace = some r; rw [h.tr]; congr 1; omega
       · -- loop
         split at hs
         · split at hs <;> cases hs
@@ -176,6 +186,7 @@ theorem inv_step (s s' : St) (i : Nat) (h : Inv s) (hs : step true s i = some s'
             · exact id
             · intro b hb hx; simp [inBody] at hb; have := h.body0 hx; omega
             · intro b hb; simp [inBody] at hb; have := h.body1; omega
+            · intro r hr; simp [isRunning] at hr; show openAfter s.trace = some r; rw [h.tr]; congr 1; omega
           · rename_i hd
             have hdf : s.disposing = false := by simpa using hd
             have hm := h.mutex hdf
@@ -188,7 +199,7 @@ theorem inv_step (s s' : St) (i : Nat) (h : Inv s) (hs : step true s i = some s'
               · simp only [hl, b2n_false] at hm; omega
               · rfl
             simp only [hlk, b2n_true] at hm
-            apply inv_upd s { s with queue := s.queue - 1, started := s.started + 1 } i _ _ h hp rfl
+            apply inv_upd s { s with queue := s.queue - 1, started := s.started + 1, trace := s.trace ++ [true] } i _ _ h hp rfl
             · intro r l hr hl _
               simp [isRunning, isLR] at hr hl
               simp only [hlk, b2n_true]; omega
@@ -197,19 +208,27 @@ theorem inv_step (s s' : St) (i : Nat) (h : Inv s) (hs : step true s i = some s'
             · exact id
             · intro b hb hx; simp [inBody] at hb; have := h.body0 hx; simp only at *; omega
             · intro b hb; simp [inBody] at hb; have := h.body1; simp only at *; omega
+            · intro r hr; simp [isRunning] at hr
+              show openAfter (s.trace ++ [true]) = some r
+              have h0 : cnt isRunning s = 0 := by omega
+              rw [openAfter_append, h.tr, h0]; simp [trStep]; omega
         · cases hs
-          exact inv_same s s i _ _ h hp rfl rfl rfl rfl rfl rfl rfl rfl (by simp [pastEnter])
+          exact inv_same s s i _ _ h hp rfl rfl rfl rfl rfl rfl rfl rfl rfl (by simp [pastEnter])
       · -- running
         cases hs
-        apply inv_upd s s i _ _ h hp rfl
+        apply inv_upd s { s with trace := s.trace ++ [false] } i _ _ h hp rfl
         · intro r l hr hl hd
           simp [isRunning, isLR] at hr hl
-          have := h.mutex hd; omega
+          have := h.mutex hd; simp only at *; omega
         · intro r hr; simp [isRunning] at hr; have := h.one; omega
         · simp [pastEnter]
         · exact id
-        · intro b hb hx; simp [inBody] at hb; have := h.body0 hx; omega
-        · intro b hb; simp [inBody] at hb; have := h.body1; omega
+        · intro b hb hx; simp [inBody] at hb; have := h.body0 hx; simp only at *; omega
+        · intro b hb; simp [inBody] at hb; have := h.body1; simp only at *; omega
+        · intro r hr; simp [isRunning] at hr
+          show openAfter (s.trace ++ [false]) = some r
+          have h1 : cnt isRunning s = 1 := by have := h.one; omega
+          rw [openAfter_append, h.tr, h1]; simp [trStep]; omega
       · -- release
         cases hs
         apply inv_upd s { s with lock := false } i _ _ h hp rfl
@@ -231,10 +250,11 @@ theorem inv_step (s s' : St) (i : Nat) (h : Inv s) (hs : step true s i = some s'
         · exact id
         · intro b hb hx; simp [inBody] at hb; have := h.body0 hx; simp only at *; omega
         · intro b hb; simp [inBody] at hb; have := h.body1; simp only at *; omega
+        · intro r hr; simp [isRunning] at hr; show openAfter s.trace = some r; rw [h.tr]; congr 1; omega
       · -- recheck
         split at hs <;> cases hs
-        · exact inv_same s s i _ _ h hp rfl rfl rfl rfl rfl rfl rfl rfl (by simp [pastEnter])
-        · exact inv_same s s i _ _ h hp rfl rfl rfl rfl rfl rfl rfl rfl (by simp [pastEnter])
+        · exact inv_same s s i _ _ h hp rfl rfl rfl rfl rfl rfl rfl rfl rfl (by simp [pastEnter])
+        · exact inv_same s s i _ _ h hp rfl rfl rfl rfl rfl rfl rfl rfl rfl (by simp [pastEnter])
       · -- done
         cases hs
     | disp force pc =>
@@ -242,11 +262,11 @@ theorem inv_step (s s' : St) (i : Nat) (h : Inv s) (hs : step true s i = some s'
       cases pc <;> simp only [stepDisp] at hs
       · -- start
         split at hs <;> cases hs
-        · exact inv_same s s i _ _ h hp rfl rfl rfl rfl rfl rfl rfl rfl (by simp [pastEnter])
-        · exact inv_same s _ i _ _ h hp rfl (by simp) rfl rfl rfl rfl rfl rfl (by simp [pastEnter])
+        · exact inv_same s s i _ _ h hp rfl rfl rfl rfl rfl rfl rfl rfl rfl (by simp [pastEnter])
+        · exact inv_same s _ i _ _ h hp rfl (by simp) rfl rfl rfl rfl rfl rfl rfl (by simp [pastEnter])
       · -- enter
         split at hs <;> cases hs
-        · exact inv_same s s i _ _ h hp rfl rfl rfl rfl rfl rfl rfl rfl (by simp [pastEnter])
+        · exact inv_same s s i _ _ h hp rfl rfl rfl rfl rfl rfl rfl rfl rfl (by simp [pastEnter])
         · have e1 : isRunning (.disp force (if force = true then .gate else .wait)) = false := by cases force <;> rfl
           have e2 : isLR (.disp force (if force = true then .gate else .wait)) = false := by cases force <;> rfl
           have e3 : inBody (.disp force (if force = true then .gate else .wait)) = false := by cases force <;> rfl
@@ -257,14 +277,15 @@ theorem inv_step (s s' : St) (i : Nat) (h : Inv s) (hs : step true s i = some s'
           · intro _; rfl
           · intro b hb hx; rw [e3] at hb; simp [inBody] at hb; have := h.body0 hx; simp only at *; omega
           · intro b hb; rw [e3] at hb; simp [inBody] at hb; have := h.body1; simp only at *; omega
+          · intro r hr; rw [e1] at hr; simp [isRunning] at hr; show openAfter s.trace = some r; rw [h.tr]; congr 1; omega
       · -- wait
         cases hs
         have hd : s.disposing = true := h.past _ hmem rfl
-        exact inv_same s s i _ _ h hp rfl rfl rfl rfl rfl rfl rfl rfl (fun _ => hd)
+        exact inv_same s s i _ _ h hp rfl rfl rfl rfl rfl rfl rfl rfl rfl (fun _ => hd)
       · -- gate
         have hd : s.disposing = true := h.past _ hmem rfl
         split at hs <;> cases hs
-        · exact inv_same s s i _ _ h hp rfl rfl rfl rfl rfl rfl rfl rfl (by simp [pastEnter])
+        · exact inv_same s s i _ _ h hp rfl rfl rfl rfl rfl rfl rfl rfl rfl (by simp [pastEnter])
         · rename_i hdd
           have hddf : s.disposed = false := by simpa using hdd
           have hb := h.body0 hddf
@@ -275,6 +296,7 @@ theorem inv_step (s s' : St) (i : Nat) (h : Inv s) (hs : step true s i = some s'
           · exact id
           · intro b _ hx; simp at hx
           · intro b hb'; simp [inBody] at hb'; simp only at *; omega
+          · intro r hr; simp [isRunning] at hr; show openAfter s.trace = some r; rw [h.tr]; congr 1; omega
       · -- body
         have hd : s.disposing = true := h.past _ hmem rfl
         cases hs
@@ -293,6 +315,7 @@ theorem inv_step (s s' : St) (i : Nat) (h : Inv s) (hs : step true s i = some s'
         · exact id
         · intro b _ hx; simp only at hx; rw [hdd] at hx; cases hx
         · intro b hb'; simp [inBody] at hb'; have := h.body1; simp only at *; omega
+        · intro r hr; simp [isRunning] at hr; show openAfter s.trace = some r; rw [h.tr]; congr 1; omega
       · -- tail
         have hd : s.disposing = true := h.past _ hmem rfl
         split at hs <;> cases hs
@@ -303,7 +326,8 @@ theorem inv_step (s s' : St) (i : Nat) (h : Inv s) (hs : step true s i = some s'
           · exact id
           · intro b hb' hx; simp [inBody] at hb'; have := h.body0 hx; simp only at *; omega
           · intro b hb'; simp [inBody] at hb'; have := h.body1; simp only at *; omega
-        · exact inv_same s s i _ _ h hp rfl rfl rfl rfl rfl rfl rfl rfl (by simp [pastEnter])
+          · intro r hr; simp [isRunning] at hr; show openAfter s.trace = some r; rw [h.tr]; congr 1; omega
+        · exact inv_same s s i _ _ h hp rfl rfl rfl rfl rfl rfl rfl rfl rfl (by simp [pastEnter])
       · -- done
         cases hs
 
@@ -335,6 +359,32 @@ theorem C13_body_at_most_once (n g f : Nat) (sched : List Nat) :
     ((run true (init n g f) sched).disposed = false → (run true (init n g f) sched).bodyRuns = 0) := by
   have h := inv_run _ sched (inv_init n g f)
   exact ⟨by have := h.body1; omega, fun hd => by have := h.body0 hd; omega⟩
+
+/-- **C14 (callbacks never interleave, any number of goroutines)**: the
+    TransitionInit / TransitionEnd callbacks, made by whichever goroutine happens to
+    run a transition, form a well-bracketed sequence for every number of callers
+    and disposers and every interleaving of their steps — an Init never comes while
+    a transition is open, an End never while none is — and a transition is open at
+    the end of the trace exactly when a goroutine is inside one. (The sequential
+    shape of the four callbacks within one transition is `C14_callbacks_well_formed`.) -/
+theorem C14_callbacks_bracketed_all_interleavings (n g f : Nat) (sched : List Nat) :
+    openAfter (run true (init n g f) sched).trace = some (running (run true (init n g f) sched)) ∧
+    running (run true (init n g f) sched) ≤ 1 :=
+  ⟨(inv_run _ sched (inv_init n g f)).tr, (inv_run _ sched (inv_init n g f)).one⟩
+
+/-- a prefix of a well-bracketed trace is well bracketed: `openAfter` of the whole being defined
+    makes it defined for every prefix. -/
+theorem foldl_trStep_none (l : List Bool) : l.foldl trStep none = none := by
+  induction l with
+  | nil => rfl
+  | cons b l ih => simpa [trStep] using ih
+
+theorem openAfter_prefix (l₁ l₂ : List Bool) (h : (openAfter (l₁ ++ l₂)).isSome) : (openAfter l₁).isSome := by
+  unfold openAfter at *
+  rw [List.foldl_append] at h
+  cases hx : l₁.foldl trStep (some 0) with
+  | none => rw [hx, foldl_trStep_none] at h; simp at h
+  | some v => simp
 
 /-! ### nothing starts once disposal is flagged -/
 
